@@ -530,3 +530,13 @@ MUTATIONS += [
     dict(id="C02-plan-new-duplicate-kept", prop="C02", file=PR, old="                        let no_duplicate = processed_packs.insert(p.id);\n                        modified |= !no_duplicate;\n                        no_duplicate", new="                        let no_duplicate = processed_packs.insert(p.id);\n                        modified |= !no_duplicate;\n                        true"),
     dict(id="C02-plan-new-marked-live-kept-unmodified", prop="C02", file=PR, old="                    let duplicate = processed_packs.contains(&p.id);\n                    modified |= duplicate;\n                    !duplicate", new="                    let duplicate = processed_packs.contains(&p.id);\n                    !duplicate"),
 ]
+
+RSF3 = "crates/core/src/commands/restore.rs"
+MUTATIONS += [
+    dict(id="C16-restore-warmup-after-read", prop="C16", file=RSF3, old="    repo.warm_up_wait(file_infos.to_packs().into_iter())?;\n    restore_contents(", new="    restore_contents("),
+    dict(id="C16-check-warmup-dropped", prop="C16", file=CKF, old="        repo.warm_up_wait(packs.iter().map(|pack| pack.id))?;\n\n        let total_pack_size", new="        if packs.is_empty() {\n            repo.warm_up_wait(packs.iter().map(|pack| pack.id))?;\n        }\n\n        let total_pack_size"),
+]
+
+MUTATIONS += [
+    dict(id="C16-repair-index-warmup-after-headers", prop="C16", file="crates/core/src/commands/repair/index.rs", old="    repo.warm_up_wait(pack_read_header.iter().map(|(id, _, _)| *id))?;\n\n    let indexer = Indexer::new(be.clone()).into_shared();\n    let p = repo.progress_counter(\"reading pack headers\");\n", new="    let indexer = Indexer::new(be.clone()).into_shared();\n    let p = repo.progress_counter(\"reading pack headers\");\n    if dry_run {\n        repo.warm_up_wait(pack_read_header.iter().map(|(id, _, _)| *id))?;\n    }\n"),
+]
